@@ -172,6 +172,15 @@ func (r *File) Merge(other Rule) bool {
 		return false
 	}
 	if r.Owner == o.Owner && r.Path == o.Path && r.Target == o.Target {
+		// Two different exec transitions cannot be written in one rule
+		for _, tr := range r.Access {
+			for _, to := range o.Access {
+				if tr != to && slices.Contains(requirements[FILE]["transition"], tr) &&
+					slices.Contains(requirements[FILE]["transition"], to) {
+					return false
+				}
+			}
+		}
 		r.Access = merge(r.Kind(), "access", r.Access, o.Access)
 		b := &r.Base
 		return b.merge(o.Base)
